@@ -41,6 +41,8 @@ class Report:
         self.tlc_runs = []
         self.exhaustive = False
         self.selftests = []
+        import shutil
+        shutil.rmtree(os.path.join(util.REPLAYS, prop), ignore_errors=True)
         self.known = [k for k in load_known() if k.get("property") == prop or prop in k.get("also", [])]
 
     # ---- accounting -------------------------------------------------------------------
